@@ -531,7 +531,7 @@ class ReachingDefs:
         """If exactly one definition of this Name reaches its use and it is a plain
         `name = expr`, return expr; else None."""
         r = self.reaching(name_node.id, name_node)
-        r = [x for x in r]
+        r = [x for x in r if x[0] is not None]      # 'possibly unbound' is not a definition
         if len(r) == 1 and r[0][0] is not None and r[0][1] is not None:
             return r[0][1]
         return None
